@@ -13,7 +13,7 @@ CHECKS = {
 
 CHECKS["C01"] = dict(engine="E2-stateright + E3-bounded-exhaustive",
    technique="explicit-state model checking of the real VM (stateright BFS over instruction sequences) plus bounded-exhaustive enumeration of boundary states and of all genomes up to a length bound under every step limit, differential against the PushRef reference semantics",
-   text="Every instruction of the full set (all enum-listed int/float/bool/exec instructions, print constants, PrintString, input variables, literal pushes) is applied by the real perform in every state of a boundary family (value alphabets with i64 extremes, NaN, infinities, signed zeros) x 10 capacity patterns, and in every state of a BFS over instruction sequences; all ordered pairs of ~440 pattern integers (every power of two and its neighbours, negatives, powers of ten) and ~650 pattern floats (powers of two over the whole exponent range, neighbours of 2^31..2^64, NaN payloads) under every int / float instruction; every int/bool/float instruction on every ordered operand triple/pair of a wide value alphabet (33 ints, 31 floats: powers of two, roots of i64::MAX, the u32 exponent boundary, subnormals, the i64 boundary among floats); all Plushy genomes up to 4 (thorough 5) genes over an 18-gene alphabet are run by the real run_to_completion under every step limit 0..8 (12) and capacities {1,2,3,8}, which exposes every intermediate state of the real loop; plus all ordered instruction pairs. One step = one exec item taken (strict accounting). Result kind, four stacks, output and capacities are compared with the set of results the reference semantics admit. PrintChar<C> is performed directly for 18 characters of every UTF-8 length (the instruction enum only carries three ASCII instances) and PrintString with non-ASCII and long texts: the output grows by exactly the text's UTF-8 bytes, stacks untouched.",
+   text="Every instruction of the full set (all enum-listed int/float/bool/exec instructions, print constants, PrintString, input variables, literal pushes) is applied by the real perform in every state of a boundary family (value alphabets with i64 extremes, NaN, infinities, signed zeros) x 10 capacity patterns, and in every state of a BFS over instruction sequences; all ordered pairs of ~440 pattern integers (every power of two and its neighbours, negatives, powers of ten) and ~650 pattern floats (powers of two over the whole exponent range, neighbours of 2^31..2^64, NaN payloads) under every int / float instruction; every int/bool/float instruction on every ordered operand triple/pair of a wide value alphabet (33 ints, 31 floats: powers of two, roots of i64::MAX, the u32 exponent boundary, subnormals, the i64 boundary among floats); all Plushy genomes up to 4 (thorough 5) genes over an 18-gene alphabet are run by the real run_to_completion under every step limit 0..8 (12) and capacities {1,2,3,8}, which exposes every intermediate state of the real loop; plus all ordered instruction pairs. One step = one exec item taken (strict accounting). Result kind, four stacks, output and capacities are compared with the set of results the reference semantics admit. PrintChar<C> is performed directly for 18 characters of every UTF-8 length (the instruction enum only carries three ASCII instances) and PrintString with non-ASCII and long texts; reading the output twice and continuing on the state that was read; the output grows by exactly the text's UTF-8 bytes, stacks untouched.",
    note="Trusted: PushRef (DESIGN Appendix A) incl. the tolerance sets of DESIGN section 3; value alphabets stand for all values away from the listed boundaries; stateright BFS.",
    design="4/C01")
 CHECKS["C02"] = dict(engine="E2-stateright + E3-bounded-exhaustive",
